@@ -40,6 +40,9 @@ type MemDB struct {
 	FailNextAt    int // Next fails instead of delivering row k (k == len(Rows): fails instead of EOF)
 	Commits       int
 	Rollbacks     int
+	// Delivered counts the faults the driver actually returned (a planned fault that the code under test
+	// never reaches - e.g. the 3rd Prepare when the statement is prepared once - is not a fault)
+	Delivered int
 }
 
 var (
@@ -97,6 +100,7 @@ func (c *memConn) Prepare(query string) (driver.Stmt, error) {
 	n := len(c.m.Prepared)
 	c.m.Prepared = append(c.m.Prepared, query)
 	if c.m.FailPrepareAt == n {
+		c.m.Delivered++
 		return nil, ErrInjected
 	}
 	return &memStmt{m: c.m, query: query}, nil
@@ -124,6 +128,7 @@ func (s *memStmt) Exec(args []driver.Value) (driver.Result, error) {
 	n := len(s.m.Execs)
 	s.m.Execs = append(s.m.Execs, Call{Query: s.query, Args: append([]driver.Value(nil), args...)})
 	if s.m.FailExecAt == n {
+		s.m.Delivered++
 		return nil, ErrInjected
 	}
 	return driver.RowsAffected(1), nil
@@ -133,6 +138,7 @@ func (s *memStmt) Query(args []driver.Value) (driver.Rows, error) {
 	defer s.m.mu.Unlock()
 	s.m.Queries = append(s.m.Queries, Call{Query: s.query, Args: append([]driver.Value(nil), args...)})
 	if s.m.FailQuery {
+		s.m.Delivered++
 		return nil, ErrInjected
 	}
 	return &memRows{m: s.m}, nil
@@ -147,6 +153,7 @@ func (r *memRows) Columns() []string { return r.m.Cols }
 func (r *memRows) Close() error      { return nil }
 func (r *memRows) Next(dest []driver.Value) error {
 	if r.m.FailNextAt == r.pos {
+		r.m.Delivered++
 		return ErrInjected
 	}
 	if r.pos >= len(r.m.Rows) {
